@@ -31,15 +31,17 @@ HARNESSES = [
          units=["lib/macbinary.c:is_macbinary_header,block_is_zero,check_modification_time"], timeout=300,
          bounds="all 128 envelope bytes symbolic, member name <= 3 arbitrary bytes, member length (64 bit) and timestamp arbitrary; fork lengths summing below 4 GiB",
          stubs=["memcmp: byte-loop model"]),
-    dict(name="macbin.strip", src="C06/macbin.c", entry="harness_strip", defines=["FN=3"], unwind=5, extra_srcs=["lib/lha_endian.c"],
-         unwindset={"harness_strip.1": 130, "harness_strip.3": 130, "ref_is_macbinary.1": 130, "block_is_zero.0": 66, "verif_memcmp.0": 5, "verif_memcpy.0": 130, "lha_decoder_read.0": 130, "harness_strip.2": 9, "decode_to_end.0": 9, "read_macbinary_header.0": 4},
-         units=["lib/macbinary.c:macbinary_decoder_init,read_macbinary_header,macbinary_decoder_read,decode_to_end,is_macbinary_header"], timeout=300, mem_gb=6,
-         bounds="envelope bytes, name, member length, timestamp as macbin.detect; inner decoder delivers <= 7 pieces of arbitrary size (envelope in 1 or 2 pieces or cut short) and ends anywhere; two read calls",
-         stubs=["lha_decoder_read (inner decoder): arbitrary piece sizes, position-tagged data", "memcpy/memcmp: byte-loop models"]),
 ] + [
     dict(name="dirs.cat%d" % c, src="C06/dirs.c", defines=["M=3", "CAT=%d" % c], unwind=9,
          units=["lib/lha_reader.c:lha_reader_next_file,lha_reader_extract,extract_directory,end_of_top_dir,set_directory_metadata,extract_file,open_output_file,set_timestamps_from_header"], timeout=300, mem_gb=6,
          bounds="catalogue entry %d: %s; per member arbitrary extra flags, permission bits (<= 07777), timestamp, length, CRC; directories may pre-exist (owner rwx) with arbitrary mode/time; chown succeeds or fails; %s" % (c, d, "END_OF_FILE policy only" if c == 6 else "3 directory policies"),
          stubs=["lha_arch_*: model filesystem (owner permission semantics, parent mtime stamping)", "lha_basic_reader_*: serves the 3 headers", "decoder: payload decodes with matching length/CRC, one read", "fwrite/fclose: succeed"])
     for c, d in [(0, "a/ a/b/ a/b/f"), (1, "a/ a/f c/"), (2, "a/ c/ c/f"), (3, "a/ a/f a/g"), (4, "a/ a/b/ a/g"), (5, "a/ a/f ab/"), (6, "a/ c/ a/g (not contiguous)")]
+] + [
+    dict(name="macbin.strip%d" % hs, src="C06/macbin.c", entry="harness_strip", defines=["FN=3", "HSPLIT=%d" % hs], unwind=5, extra_srcs=["lib/lha_endian.c"],
+         unwindset={"harness_strip.1": 130, "harness_strip.3": 130, "ref_is_macbinary.1": 130, "block_is_zero.0": 66, "verif_memcmp.0": 5, "verif_memcpy.0": 130, "lha_decoder_read.0": 130, "harness_strip.2": 9, "decode_to_end.0": 9, "read_macbinary_header.0": 4},
+         units=["lib/macbinary.c:macbinary_decoder_init,read_macbinary_header,macbinary_decoder_read,decode_to_end,is_macbinary_header"], timeout=300, mem_gb=6,
+         bounds="envelope bytes, name, member length, timestamp as macbin.detect; envelope %s; afterwards the inner decoder delivers pieces of arbitrary size and ends anywhere (<= 7 calls); two read calls" % d,
+         stubs=["lha_decoder_read (inner decoder): arbitrary piece sizes, position-tagged data", "memcpy/memcmp: byte-loop models"])
+    for hs, d in [(0, "delivered in one piece"), (1, "delivered as 100 + 28 bytes"), (2, "cut short after 100 bytes")]
 ]
